@@ -188,7 +188,8 @@ def instances(tier):
     out = []
     if tier == "quick":
         combos = [((0, 0), p, s, (True, True)) for p in [(-1, 1), (1, -1), (0, 0), (0, 1)] for s in ("hv", "lv")]
-        combos += [((0, 1), (-1, 1), "hv", (True, True)), ((0, 0), (1, -1), "lv", (True, False))]
+        combos += [((0, 1), (-1, 1), "hv", (True, True)), ((0, 0), (1, -1), "lv", (True, False)),
+                   ((0, 0), (1, -1), "hv", (False, True)), ((0, 1), (-1, 1), "lv", (False, True))]
     else:
         combos = []
         for ids in itertools.product(IDS, repeat=3):
